@@ -546,7 +546,8 @@ fn symbols_strategy(abc: Abc, format: Format) -> BoxedStrategy<Vec<u8>> {
 }
 
 fn record_strategy(abc: Abc, format: Format) -> BoxedStrategy<RecModel> {
-    let width = 1usize..=30;
+    // mostly short motifs; one in twelve wide enough for three-digit position numbers and long row lines
+    let width = prop_oneof![11 => 1usize..=30, 1 => prop_oneof![Just(99usize), Just(100usize), Just(101usize), 31usize..=130]];
     (symbols_strategy(abc, format), width, ident_strategy(), proptest::option::of(ident_strategy()), proptest::option::of(text_strategy()), proptest::option::of(text_strategy()), any::<u64>(), any::<u64>())
         .prop_flat_map(move |(symbols, w, id, accession, name, description, layout, vseed)| {
             let ns = symbols.len();
@@ -685,7 +686,7 @@ impl Sub for RoundTrip {
         "roundtrip"
     }
     fn rule(&self) -> &'static str {
-        "model list of 1..40 (quick) / ..400 (thorough) records -> own writer per format (JASPAR raw, JASPAR 2016, TRANSFAC, UniPROBE; DNA and protein where supported; ids / accession / name / description present or absent incl. multi-byte UTF-8; width 1..30; counts to u32::MAX in every count format (TRANSFAC: also decimals); symbol lines / columns in any order and possibly missing; separator runs of blanks and tabs; LF or CRLF; optional VV block, XX lines, blank lines where the format allows) -> bytes -> reader over 3 generated chunkings (1-byte chunks, fixed, cyclic patterns, BufReader capacity 1..8192, whole); records read must equal the model (count, order, every field, every cell, unnamed columns 0), the by-value / derived accessors (into_matrix, CountMatrix::from(record), TRANSFAC to_counts for integral data) must agree with the matrix, and then None twice; non-trivial = >= 2 records and a chunking whose chunks are shorter than the file"
+        "model list of 1..40 (quick) / ..400 (thorough) records -> own writer per format (JASPAR raw, JASPAR 2016, TRANSFAC, UniPROBE; DNA and protein where supported; ids / accession / name / description present or absent incl. multi-byte UTF-8; width 1..30, one in twelve 31..130 (position numbers of three digits); counts to u32::MAX in every count format (TRANSFAC: also decimals); symbol lines / columns in any order and possibly missing; separator runs of blanks and tabs; LF or CRLF; optional VV block, XX lines, blank lines where the format allows) -> bytes -> reader over 3 generated chunkings (1-byte chunks, fixed, cyclic patterns, BufReader capacity 1..8192, whole); records read must equal the model (count, order, every field, every cell, unnamed columns 0), the by-value / derived accessors (into_matrix, CountMatrix::from(record), TRANSFAC to_counts for integral data) must agree with the matrix, and then None twice; non-trivial = >= 2 records and a chunking whose chunks are shorter than the file"
     }
     fn cases(&self, tier: Tier) -> u64 {
         tier.pick(20_000, 400_000)
@@ -708,6 +709,7 @@ impl Sub for RoundTrip {
         info.class_if(f.crlf, "crlf");
         info.class_if(bytes.len() > 8192, "file>8KiB");
         info.class_if(f.records.len() >= 12, ">=12-records");
+        info.class_if(f.records.iter().any(|r| r.width() >= 100), "a-motif-of-100-or-more-positions");
         info.class_if(f.records.iter().any(|r| r.symbols.len() < f.abc.k() - 1), "missing-symbols");
         info.class_if(f.records.iter().any(|r| r.description.is_none()), "optional-field-absent");
         info.class_if(f.records.iter().any(|r| !r.id.is_ascii() || r.description.as_deref().map_or(false, |d| !d.is_ascii())), "multi-byte-utf8");
